@@ -12,10 +12,25 @@ package main
 // (`var x T`, `x := T{…}`, `x := make(T, …)`, `x := f(…)` with f declared in the package, struct
 // fields incl. embedded ones, index / range over slices and maps, conversions).  Whatever is
 // outside these shapes is reported as `unknown := true` (with a reason); nothing is guessed.
+//
+// Calls to UNEXPORTED functions / methods of the package are expanded in place (recursively, depth
+// limit 4, recursion guard), so that extracting a private helper from an Export / Import / WriteTo /
+// ReadFrom does not change the table of the exported method (apart from the `-- file:line` comments):
+//   * JSON table: the helper's body is walked with the caller's entry as target; its receiver and its
+//     parameters are bound to the receiver paths / string literals of the caller's arguments (`wire`
+//     survives); a helper that hands a parameter back unchanged (`return p`) passes the wire through
+//     (`recv.key = pick(flag, v.Key)` reads Key straight into .key).  Only helpers that may have to do
+//     with a mirror struct or encoding/json are expanded (mayTouch).
+//   * layout table: a call that passes the stream (as itself, once) is replaced by the stream operations
+//     of the callee at the caller's loop depth; a byte-order parameter and value parameters of interface
+//     type are replaced by the caller's arguments.  writeTo / readFrom / WriteTo / ReadFrom stay nested
+//     entries.  Exported callees are never expanded.
+// This file depends on no other generator file (own loader and string helpers).
 
 import (
 	"fmt"
 	"go/ast"
+	"go/parser"
 	"go/token"
 	"go/types"
 	"path/filepath"
@@ -29,12 +44,17 @@ import (
 // package view
 
 type layoutPkg struct {
-	*arithPkg
-	named     map[string]ast.Expr      // every package-level named type -> its type expression
-	mirrors   map[string]*mirrorStruct // structs with at least one json tag
-	mirrorFld map[string]bool          // Go field names occurring in some mirror struct
+	fset      *token.FileSet
+	files     map[string]*ast.File       // base name -> file (non-test files of the package)
+	structs   map[string]*ast.StructType // named struct types
+	funcs     map[string][]*ast.FuncDecl // functions and methods by name
+	named     map[string]ast.Expr        // every package-level named type -> its type expression
+	mirrors   map[string]*mirrorStruct   // structs with at least one json tag
+	mirrorFld map[string]bool            // Go field names occurring in some mirror struct
 	fileOf    map[*ast.FuncDecl]*ast.File
-	decls     []*ast.FuncDecl // all functions / methods with a body, in (file, position) order
+	decls     []*ast.FuncDecl        // all functions / methods with a body, in (file, position) order
+	expanded  map[*ast.FuncDecl]bool // unexported callees whose body was expanded into a caller's entry
+	touch     map[*ast.FuncDecl]int  // memo of mayTouch
 }
 
 type mirrorField struct {
@@ -66,22 +86,34 @@ var layoutExtern = map[string]struct{ importPath, result string }{
 }
 
 func loadLayoutPkg(repo string) (*layoutPkg, error) {
-	ap, err := loadArithPkg(repo)
+	// the loader is private to this file (no dependency on the other generators)
+	p := &layoutPkg{fset: token.NewFileSet(), files: map[string]*ast.File{}, structs: map[string]*ast.StructType{},
+		funcs: map[string][]*ast.FuncDecl{}, named: map[string]ast.Expr{}, mirrors: map[string]*mirrorStruct{},
+		mirrorFld: map[string]bool{}, fileOf: map[*ast.FuncDecl]*ast.File{}, expanded: map[*ast.FuncDecl]bool{}}
+	matches, err := filepath.Glob(filepath.Join(repo, "*.go"))
 	if err != nil {
 		return nil, err
 	}
-	p := &layoutPkg{arithPkg: ap, named: map[string]ast.Expr{}, mirrors: map[string]*mirrorStruct{},
-		mirrorFld: map[string]bool{}, fileOf: map[*ast.FuncDecl]*ast.File{}}
+	sort.Strings(matches)
 	var names []string
-	for n := range ap.files {
-		names = append(names, n)
+	for _, path := range matches {
+		base := filepath.Base(path)
+		if strings.HasSuffix(base, "_test.go") {
+			continue
+		}
+		f, err := parser.ParseFile(p.fset, path, nil, parser.SkipObjectResolution)
+		if err != nil {
+			return nil, err
+		}
+		p.files[base] = f
+		names = append(names, base)
 	}
-	sort.Strings(names)
 	for _, n := range names {
-		f := ap.files[n]
+		f := p.files[n]
 		for _, d := range f.Decls {
 			switch d := d.(type) {
 			case *ast.FuncDecl:
+				p.funcs[d.Name.Name] = append(p.funcs[d.Name.Name], d)
 				if d.Body != nil {
 					p.decls = append(p.decls, d)
 					p.fileOf[d] = f
@@ -90,6 +122,9 @@ func loadLayoutPkg(repo string) (*layoutPkg, error) {
 				for _, s := range d.Specs {
 					if ts, ok := s.(*ast.TypeSpec); ok {
 						p.named[ts.Name.Name] = ts.Type
+						if st, ok := ts.Type.(*ast.StructType); ok {
+							p.structs[ts.Name.Name] = st
+						}
 					}
 				}
 			}
@@ -253,7 +288,7 @@ func (p *layoutPkg) fieldTypeU(structName, field string, depth int) (ast.Expr, b
 	var hit ast.Expr
 	for _, f := range st.Fields.List {
 		if len(f.Names) == 0 {
-			t, ok := p.fieldTypeU(typeName(f.Type), field, depth+1)
+			t, ok := p.fieldTypeU(lyTypeName(f.Type), field, depth+1)
 			if !ok {
 				return nil, false
 			}
@@ -270,7 +305,7 @@ func (p *layoutPkg) fieldTypeU(structName, field string, depth int) (ast.Expr, b
 
 func (p *layoutPkg) methodDecl(recv, name string) *ast.FuncDecl {
 	for _, d := range p.funcs[name] {
-		if d.Recv != nil && len(d.Recv.List) > 0 && typeName(d.Recv.List[0].Type) == recv {
+		if d.Recv != nil && len(d.Recv.List) > 0 && lyTypeName(d.Recv.List[0].Type) == recv {
 			return d
 		}
 	}
@@ -426,7 +461,7 @@ func (e *typeEnv) callResults(c *ast.CallExpr) []ast.Expr {
 				n := 0
 				for _, fl := range st.Fields.List {
 					if len(fl.Names) == 0 {
-						if d := e.p.methodDecl(typeName(fl.Type), f.Sel.Name); d != nil {
+						if d := e.p.methodDecl(lyTypeName(fl.Type), f.Sel.Name); d != nil {
 							hit = d
 							n++
 						}
@@ -722,17 +757,23 @@ func (u *jsonUse) relevant() bool {
 
 func funcLabel(fd *ast.FuncDecl) string {
 	if fd.Recv != nil && len(fd.Recv.List) > 0 {
-		return typeName(fd.Recv.List[0].Type) + "." + fd.Name.Name
+		return lyTypeName(fd.Recv.List[0].Type) + "." + fd.Name.Name
 	}
 	return fd.Name.Name
 }
 
 type jsonScan struct {
-	p    *layoutPkg
-	env  *typeEnv
-	u    *jsonUse
-	recv string
+	p   *layoutPkg
+	env *typeEnv
+	u   *jsonUse
+	// roots: identifiers that stand for a place of the ENTRY method's receiver.  The receiver itself
+	// maps to "" (so recv.x is ".x"); inside an expanded helper its receiver and its parameters map to
+	// the path (".a", ".a.b", ".M()") or the string literal the caller passed.
+	roots map[string]string
+	stack []*ast.FuncDecl // helpers being expanded (recursion guard, depth limit)
 }
+
+const maxExpandDepth = 4
 
 func (s *jsonScan) mirrorOf(t ast.Expr) *mirrorStruct {
 	if t == nil {
@@ -753,10 +794,13 @@ func (s *jsonScan) recvPath(x ast.Expr) string {
 		if v.Kind == token.STRING {
 			return v.Value
 		}
+	case *ast.Ident:
+		// a helper's parameter bound to a receiver path / string literal of the caller
+		return s.roots[v.Name]
 	case *ast.SelectorExpr:
 		if id, ok := v.X.(*ast.Ident); ok {
-			if id.Name == s.recv && s.recv != "" {
-				return "." + v.Sel.Name
+			if r, ok := s.roots[id.Name]; ok && (r == "" || strings.HasPrefix(r, ".")) {
+				return r + "." + v.Sel.Name
 			}
 			return ""
 		}
@@ -770,9 +814,249 @@ func (s *jsonScan) recvPath(x ast.Expr) string {
 					return in + "()"
 				}
 			}
+			return ""
+		}
+		// an unexported helper that hands one of its parameters back: the value is the argument's
+		if d := s.expandable(v); d != nil {
+			if pt := s.p.passthrough(d); len(pt) == 1 {
+				for i := range pt {
+					if i < len(v.Args) {
+						return s.recvPath(v.Args[i])
+					}
+				}
+			}
 		}
 	}
 	return ""
+}
+
+// expandable: the call goes to exactly one UNEXPORTED function / method of the package (with a body)
+func (s *jsonScan) expandable(c *ast.CallExpr) *ast.FuncDecl {
+	return s.p.privateCallee(s.env, c)
+}
+
+// privateCallee resolves a call to the one unexported function or method of the package it names
+func (p *layoutPkg) privateCallee(env *typeEnv, c *ast.CallExpr) *ast.FuncDecl {
+	var d *ast.FuncDecl
+	switch f := c.Fun.(type) {
+	case *ast.Ident:
+		if _, local := env.vars[f.Name]; local {
+			return nil
+		}
+		d = p.plainFunc(f.Name)
+	case *ast.SelectorExpr:
+		if id, ok := f.X.(*ast.Ident); ok {
+			if _, local := env.vars[id.Name]; !local && env.importPathOf(id.Name) != "" {
+				return nil
+			}
+		}
+		rt := env.typeOf(f.X)
+		if rt == nil {
+			return nil
+		}
+		id, ok := derefType(rt).(*ast.Ident)
+		if !ok {
+			return nil
+		}
+		if _, ours := p.named[id.Name]; !ours {
+			return nil
+		}
+		d = p.methodDecl(id.Name, f.Sel.Name)
+	}
+	if d == nil || d.Body == nil || ast.IsExported(d.Name.Name) || c.Ellipsis.IsValid() {
+		return nil
+	}
+	return d
+}
+
+// paramNames: the parameters of a declaration in order ("" for unnamed / blank ones); ok = false for variadic
+func paramNames(d *ast.FuncDecl) ([]string, bool) {
+	var out []string
+	for _, f := range d.Type.Params.List {
+		if _, variadic := f.Type.(*ast.Ellipsis); variadic {
+			return nil, false
+		}
+		if len(f.Names) == 0 {
+			out = append(out, "")
+		}
+		for _, n := range f.Names {
+			if n.Name == "_" {
+				out = append(out, "")
+			} else {
+				out = append(out, n.Name)
+			}
+		}
+	}
+	return out, true
+}
+
+// assignedIdents: identifiers assigned (not declared) or address-taken somewhere in the body
+func assignedIdents(d *ast.FuncDecl) map[string]bool {
+	out := map[string]bool{}
+	ast.Inspect(d.Body, func(x ast.Node) bool {
+		switch v := x.(type) {
+		case *ast.AssignStmt:
+			for _, l := range v.Lhs {
+				if id, ok := l.(*ast.Ident); ok {
+					out[id.Name] = true // also `x := …` in an inner scope: the name no longer means the parameter
+				}
+			}
+		case *ast.IncDecStmt:
+			if id, ok := v.X.(*ast.Ident); ok {
+				out[id.Name] = true
+			}
+		case *ast.UnaryExpr:
+			if id, ok := v.X.(*ast.Ident); ok && v.Op == token.AND {
+				out[id.Name] = true
+			}
+		case *ast.RangeStmt:
+			for _, l := range []ast.Expr{v.Key, v.Value} {
+				if id, ok := l.(*ast.Ident); ok {
+					out[id.Name] = true
+				}
+			}
+		}
+		return true
+	})
+	return out
+}
+
+// passthrough: indices of the parameters a single-result function returns unchanged in some return
+// statement (`func pick(flag bool, v string) string { if flag { return fresh() }; return v }` -> {1})
+func (p *layoutPkg) passthrough(d *ast.FuncDecl) map[int]bool {
+	out := map[int]bool{}
+	if len(resultList(d)) != 1 {
+		return out
+	}
+	names, ok := paramNames(d)
+	if !ok {
+		return out
+	}
+	assigned := assignedIdents(d)
+	var walk func(n ast.Node)
+	walk = func(n ast.Node) {
+		ast.Inspect(n, func(x ast.Node) bool {
+			switch v := x.(type) {
+			case *ast.FuncLit:
+				return false
+			case *ast.ReturnStmt:
+				if len(v.Results) == 1 {
+					if id, ok := v.Results[0].(*ast.Ident); ok {
+						for i, n := range names {
+							if n != "" && n == id.Name && !assigned[n] {
+								out[i] = true
+							}
+						}
+					}
+				}
+			}
+			return true
+		})
+	}
+	walk(d.Body)
+	return out
+}
+
+// mayTouch: could the function, or anything of the package it calls (by name, over-approximated),
+// have to do with a mirror struct or encoding/json?  Only such helpers are expanded; the others
+// (getRedisClient, key arithmetic, …) contribute nothing to an entry.
+func (p *layoutPkg) mayTouch(d *ast.FuncDecl) bool {
+	if p.touch == nil {
+		p.touch = map[*ast.FuncDecl]int{}
+	}
+	switch p.touch[d] {
+	case 1:
+		return true
+	case 2, 3: // no / being visited (a cycle adds nothing by itself)
+		return false
+	}
+	p.touch[d] = 3
+	hit := false
+	var callees []string
+	ast.Inspect(d, func(x ast.Node) bool {
+		switch v := x.(type) {
+		case *ast.Ident:
+			if _, m := p.mirrors[v.Name]; m || v.Name == "json" {
+				hit = true
+			}
+		case *ast.CallExpr:
+			switch f := v.Fun.(type) {
+			case *ast.Ident:
+				callees = append(callees, f.Name)
+			case *ast.SelectorExpr:
+				callees = append(callees, f.Sel.Name)
+			}
+		}
+		return !hit
+	})
+	if !hit {
+		for _, n := range callees {
+			for _, g := range p.funcs[n] {
+				if g != d && g.Body != nil && p.mayTouch(g) {
+					hit = true
+				}
+			}
+		}
+	}
+	if hit {
+		p.touch[d] = 1
+	} else {
+		p.touch[d] = 2
+	}
+	return hit
+}
+
+// expand walks the body of an unexported helper as if it stood at the call: its sets / reads /
+// marshal calls / unknown flags go into the caller's entry; its receiver and parameters are bound to
+// the receiver paths of the caller's arguments so that the `wire` information survives.
+func (s *jsonScan) expand(c *ast.CallExpr, d *ast.FuncDecl) {
+	label := funcLabel(d)
+	if len(s.stack) >= maxExpandDepth {
+		s.u.flag("helper calls nested deeper than " + strconv.Itoa(maxExpandDepth) + " at " + label)
+		return
+	}
+	for _, x := range s.stack {
+		if x == d {
+			s.u.flag("recursive helper " + label)
+			return
+		}
+	}
+	env, poisoned := s.p.buildEnv(d)
+	child := &jsonScan{p: s.p, env: env, u: s.u, roots: map[string]string{}, stack: append(append([]*ast.FuncDecl{}, s.stack...), d)}
+	assigned := assignedIdents(d)
+	if d.Recv != nil && len(d.Recv.List) > 0 && len(d.Recv.List[0].Names) > 0 {
+		rn := d.Recv.List[0].Names[0].Name
+		if sel, ok := c.Fun.(*ast.SelectorExpr); ok && !assigned[rn] {
+			if id, ok := sel.X.(*ast.Ident); ok {
+				if r, ok := s.roots[id.Name]; ok && (r == "" || strings.HasPrefix(r, ".")) {
+					child.roots[rn] = r
+				}
+			} else if r := s.recvPath(sel.X); strings.HasPrefix(r, ".") {
+				child.roots[rn] = r
+			}
+		}
+	}
+	if names, ok := paramNames(d); ok && len(names) == len(c.Args) {
+		for i, n := range names {
+			if n == "" || assigned[n] {
+				continue
+			}
+			if r := s.recvPath(c.Args[i]); r != "" {
+				child.roots[n] = r
+			}
+		}
+	}
+	before := len(s.u.marshals) + len(s.u.unmarshals) + len(s.u.sets) + len(s.u.reads)
+	child.block(d.Body)
+	after := len(s.u.marshals) + len(s.u.unmarshals) + len(s.u.sets) + len(s.u.reads)
+	if after > before {
+		for _, n := range poisoned {
+			if shadowInvolvesMirror(s.p, d, n) {
+				s.u.flag("local " + n + " of " + label + " is declared with several types, one of them a mirror struct")
+			}
+		}
+	}
+	s.p.expanded[d] = true
 }
 
 func (s *jsonScan) addSet(fu fieldUse)  { s.u.sets = append(s.u.sets, fu) }
@@ -950,7 +1234,11 @@ func (s *jsonScan) expr(x ast.Expr) {
 	}
 }
 
-func (s *jsonScan) call(c *ast.CallExpr) {
+func (s *jsonScan) call(c *ast.CallExpr) { s.callTo(c, "") }
+
+// callTo: `target` is the receiver field the call's result is assigned to ("" if none): a mirror field
+// that an unexported helper hands back unchanged is then READ straight into that field.
+func (s *jsonScan) callTo(c *ast.CallExpr, target string) {
 	if isTypeExpr(c.Fun) {
 		for _, a := range c.Args {
 			s.expr(a)
@@ -1000,16 +1288,36 @@ func (s *jsonScan) call(c *ast.CallExpr) {
 		s.expr(c.Fun)
 	}
 	inPkg := name != "" && len(s.p.funcs[name]) > 0 && !isBuiltin && !isConv
+	var helper *ast.FuncDecl
 	if inPkg {
-		s.u.calls = append(s.u.calls, s.resolveCallee(c, name)...)
+		helper = s.expandable(c)
+		if helper == nil {
+			s.u.calls = append(s.u.calls, s.resolveCallee(c, name)...)
+		}
 	}
-	for _, a := range c.Args {
+	var handedBack map[int]bool
+	if helper != nil && target != "" {
+		handedBack = s.p.passthrough(helper)
+	}
+	for i, a := range c.Args {
 		if !isBuiltin && !isConv && (!inPkg || recvUnknown) {
 			if t := s.env.typeOf(a); mentions(t, s.p.mirrors) {
 				s.u.flag("a value of type " + types.ExprString(t) + " is passed to " + types.ExprString(c.Fun) + ", which is not known to be a function of the package")
 			}
 		}
+		if handedBack[i] {
+			if sel, ok := a.(*ast.SelectorExpr); ok {
+				if ms := s.mirrorOf(s.env.typeOf(sel.X)); ms != nil {
+					s.addRead(fieldUse{strct: ms.name, field: sel.Sel.Name, pos: sel.Sel.Pos(), wire: target})
+					s.expr(sel.X)
+					continue
+				}
+			}
+		}
 		s.expr(a)
+	}
+	if helper != nil && s.p.mayTouch(helper) {
+		s.expand(c, helper)
 	}
 }
 
@@ -1137,6 +1445,12 @@ func (s *jsonScan) stmt(st ast.Stmt) {
 			var exp ast.Expr
 			if len(v.Rhs) == len(v.Lhs) {
 				exp = s.env.typeOf(v.Lhs[i])
+				if c, ok := r.(*ast.CallExpr); ok && v.Tok == token.ASSIGN {
+					if t := s.recvTarget(v.Lhs[i]); strings.HasPrefix(t, ".") {
+						s.callTo(c, t)
+						continue
+					}
+				}
 			}
 			s.value(r, exp)
 		}
@@ -1227,9 +1541,11 @@ func (p *layoutPkg) scanJSON() []*jsonUse {
 	for _, fd := range p.decls {
 		env, poisoned := p.buildEnv(fd)
 		u := &jsonUse{fn: funcLabel(fd), fd: fd}
-		sc := &jsonScan{p: p, env: env, u: u}
+		sc := &jsonScan{p: p, env: env, u: u, roots: map[string]string{}, stack: []*ast.FuncDecl{fd}}
 		if fd.Recv != nil && len(fd.Recv.List) > 0 && len(fd.Recv.List[0].Names) > 0 {
-			sc.recv = fd.Recv.List[0].Names[0].Name
+			if rn := fd.Recv.List[0].Names[0].Name; !assignedIdents(fd)[rn] {
+				sc.roots[rn] = ""
+			}
 		}
 		sc.block(fd.Body)
 		// a shadowed name is only a problem where mirror structs are involved
@@ -1258,13 +1574,18 @@ func (p *layoutPkg) scanJSON() []*jsonUse {
 		byName[u.fn] = u
 	}
 	var out []*jsonUse
+	// an entry per function that is relevant after expansion; an unexported helper whose body was
+	// expanded into its callers has no entry of its own (its content is in theirs)
+	emitted := func(u *jsonUse) bool {
+		return u.relevant() && (ast.IsExported(u.fd.Name.Name) || !p.expanded[u.fd])
+	}
 	for _, u := range all {
-		if !u.relevant() {
+		if !emitted(u) {
 			continue
 		}
 		seen := map[string]bool{}
 		for _, c := range u.calls {
-			if h := byName[c]; h != nil && h.relevant() && !seen[c] && c != u.fn {
+			if h := byName[c]; h != nil && emitted(h) && !seen[c] && c != u.fn {
 				seen[c] = true
 				u.callees = append(u.callees, c)
 			}
@@ -1339,12 +1660,15 @@ func genJsonTable(repo string) (string, error) {
 	sb.WriteString("   jsonStructs: every struct type with at least one `json:\"…\"` field tag.\n")
 	sb.WriteString("   jsonUses: every function that marshals / unmarshals through encoding/json or sets / reads a field of\n")
 	sb.WriteString("   such a struct; `wire` is the receiver field (\".name\", \".Method()\", or a string literal) a value comes\n")
-	sb.WriteString("   straight from (sets) resp. is assigned to (reads), \"\" for anything more involved. -/\n")
+	sb.WriteString("   straight from (sets) resp. is assigned to (reads), \"\" for anything more involved.\n")
+	sb.WriteString("   Calls to UNEXPORTED functions / methods of the package are expanded in place (depth <= 4): what such a\n")
+	sb.WriteString("   helper sets / reads / marshals is part of its caller's entry and the helper has no entry of its own;\n")
+	sb.WriteString("   `exported` = the function's name is exported; `callees` = other entries called (not expanded). -/\n")
 	sb.WriteString("namespace Gostatix.Generated\n\n")
 	sb.WriteString("structure JsonField where\n  goName : String\n  goType : String\n  key : String\n  tagged : Bool\n  exported : Bool\n  omitempty : Bool\n  asString : Bool\n  skip : Bool\n  unknown : Bool\n  deriving Repr, DecidableEq\n\n")
 	sb.WriteString("structure JsonStruct where\n  name : String\n  fields : List JsonField\n  unknown : Bool\n  deriving Repr, DecidableEq\n\n")
 	sb.WriteString("structure FieldUse where\n  strct : String\n  field : String\n  positional : Bool\n  index : Nat\n  wire : String\n  deriving Repr, DecidableEq\n\n")
-	sb.WriteString("structure JsonUse where\n  fn : String\n  marshals : List String\n  unmarshals : List String\n  sets : List FieldUse\n  reads : List FieldUse\n  callees : List String\n  unknown : Bool\n  deriving Repr, DecidableEq\n\n")
+	sb.WriteString("structure JsonUse where\n  fn : String\n  exported : Bool\n  marshals : List String\n  unmarshals : List String\n  sets : List FieldUse\n  reads : List FieldUse\n  callees : List String\n  unknown : Bool\n  deriving Repr, DecidableEq\n\n")
 	sb.WriteString("def jsonStructs : List JsonStruct := [\n")
 	for i, n := range names {
 		ms := p.mirrors[n]
@@ -1355,7 +1679,7 @@ func genJsonTable(repo string) (string, error) {
 		if ms.why != "" {
 			fmt.Fprintf(&sb, "  (unknown: %s)", ms.why)
 		}
-		fmt.Fprintf(&sb, "\n  { name := %s, unknown := %s, fields := [\n", leanString(ms.name), leanBool(ms.unknown))
+		fmt.Fprintf(&sb, "\n  { name := %s, unknown := %s, fields := [\n", lyQuote(ms.name), lyBool(ms.unknown))
 		for j, f := range ms.fields {
 			if j > 0 {
 				sb.WriteString(",\n")
@@ -1365,8 +1689,8 @@ func genJsonTable(repo string) (string, error) {
 				fmt.Fprintf(&sb, "  (unknown: %s)", f.why)
 			}
 			fmt.Fprintf(&sb, "\n      { goName := %s, goType := %s, key := %s, tagged := %s, exported := %s, omitempty := %s, asString := %s, skip := %s, unknown := %s }",
-				leanString(f.goName), leanString(f.goType), leanString(f.key), leanBool(f.tagged), leanBool(f.expo),
-				leanBool(f.omitempty), leanBool(f.asString), leanBool(f.skip), leanBool(f.unknown))
+				lyQuote(f.goName), lyQuote(f.goType), lyQuote(f.key), lyBool(f.tagged), lyBool(f.expo),
+				lyBool(f.omitempty), lyBool(f.asString), lyBool(f.skip), lyBool(f.unknown))
 		}
 		sb.WriteString(" ] }")
 	}
@@ -1380,7 +1704,7 @@ func genJsonTable(repo string) (string, error) {
 				sb.WriteString(",")
 			}
 			fmt.Fprintf(&sb, "\n      -- %s\n      { strct := %s, field := %s, positional := %s, index := %d, wire := %s }",
-				p.at(f.pos), leanString(f.strct), leanString(f.field), leanBool(f.positional), f.index, leanString(f.wire))
+				p.at(f.pos), lyQuote(f.strct), lyQuote(f.field), lyBool(f.positional), f.index, lyQuote(f.wire))
 		}
 		sb.WriteString(" ]")
 	}
@@ -1393,8 +1717,8 @@ func genJsonTable(repo string) (string, error) {
 		for _, w := range u.why {
 			fmt.Fprintf(&sb, "\n  --   unknown: %s", strings.ReplaceAll(w, "\n", " "))
 		}
-		fmt.Fprintf(&sb, "\n  { fn := %s, marshals := %s, unmarshals := %s, callees := %s, unknown := %s,\n",
-			leanString(u.fn), leanStringList(u.marshals), leanStringList(u.unmarshals), leanStringList(u.callees), leanBool(u.unknown))
+		fmt.Fprintf(&sb, "\n  { fn := %s, exported := %s, marshals := %s, unmarshals := %s, callees := %s, unknown := %s,\n",
+			lyQuote(u.fn), lyBool(ast.IsExported(u.fd.Name.Name)), lyQuoteList(u.marshals), lyQuoteList(u.unmarshals), lyQuoteList(u.callees), lyBool(u.unknown))
 		writeUses(u.sets, "sets")
 		sb.WriteString(",\n")
 		writeUses(u.reads, "reads")
@@ -1404,10 +1728,10 @@ func genJsonTable(repo string) (string, error) {
 	return sb.String(), nil
 }
 
-func leanStringList(l []string) string {
+func lyQuoteList(l []string) string {
 	q := make([]string, len(l))
 	for i, s := range l {
-		q[i] = leanString(s)
+		q[i] = lyQuote(s)
 	}
 	return "[" + strings.Join(q, ", ") + "]"
 }
@@ -1440,6 +1764,14 @@ type layoutScan struct {
 	env    *typeEnv
 	e      *layoutEntry
 	stream string
+	// inside an expanded helper: its parameters (other than the stream) stand for the caller's arguments
+	bind  map[string]layoutBinding
+	stack []*ast.FuncDecl // the method and the helpers being expanded (recursion guard, depth limit)
+}
+
+type layoutBinding struct {
+	expr ast.Expr
+	from *layoutScan
 }
 
 func (l *layoutEntry) flag(why string) {
@@ -1473,8 +1805,55 @@ func mentionsIdent(x ast.Node, name string) bool {
 	return found
 }
 
+func (p *layoutPkg) isInterface(t ast.Expr) bool {
+	switch v := p.underlying(t).(type) {
+	case *ast.InterfaceType:
+		return true
+	case *ast.Ident:
+		if v.Name == "any" {
+			return true
+		}
+		_, ok := p.named[v.Name].(*ast.InterfaceType)
+		return ok
+	}
+	return false
+}
+
+// staticType: like typeEnv.typeOf, but a helper's parameter of interface type (or of a type that is
+// not understood) has the static type of the argument the caller passed
+func (s *layoutScan) staticType(x ast.Expr) ast.Expr {
+	switch v := x.(type) {
+	case *ast.ParenExpr:
+		return s.staticType(v.X)
+	case *ast.Ident:
+		if b, ok := s.bind[v.Name]; ok {
+			if declared := s.env.typeOf(v); declared == nil || s.p.isInterface(declared) {
+				return b.from.staticType(b.expr)
+			}
+		}
+	case *ast.UnaryExpr:
+		if v.Op == token.AND {
+			if t := s.staticType(v.X); t != nil {
+				return &ast.StarExpr{X: t}
+			}
+			return nil
+		}
+	}
+	return s.env.typeOf(x)
+}
+
+// orderText: the byte order expression; a helper's parameter is replaced by the caller's argument
+func (s *layoutScan) orderText(x ast.Expr) string {
+	if id, ok := x.(*ast.Ident); ok {
+		if b, ok := s.bind[id.Name]; ok {
+			return b.from.orderText(b.expr)
+		}
+	}
+	return types.ExprString(x)
+}
+
 func (s *layoutScan) tyOf(x ast.Expr, op *streamOp) {
-	t := s.env.typeOf(x)
+	t := s.staticType(x)
 	if t == nil {
 		op.ty, op.unknown, op.why = "?", true, "type of "+types.ExprString(x)+" is not understood"
 		return
@@ -1496,7 +1875,7 @@ func (s *layoutScan) classify(c *ast.CallExpr) *streamOp {
 				op.unknown, op.why, op.ty = true, "argument shape not understood", "?"
 				return op
 			}
-			op.order = types.ExprString(c.Args[1])
+			op.order = s.orderText(c.Args[1])
 			arg := c.Args[2]
 			if sel.Sel.Name == "Read" {
 				if u, ok := arg.(*ast.UnaryExpr); ok && u.Op == token.AND {
@@ -1554,6 +1933,9 @@ func (s *layoutScan) exprOps(x ast.Node, depth int, cond string) {
 			}
 			return false
 		case *ast.CallExpr:
+			if s.expandHelper(v, depth, cond) {
+				return false
+			}
 			if op := s.classify(v); op != nil {
 				op.depth = depth
 				if cond != "" && !op.unknown {
@@ -1569,6 +1951,73 @@ func (s *layoutScan) exprOps(x ast.Node, depth int, cond string) {
 		}
 		return true
 	})
+}
+
+// expandHelper: a call that hands the stream to an UNEXPORTED function / method of the package (other
+// than writeTo / readFrom, which stay nested entries) is replaced by the stream operations of the
+// callee's body, at the caller's loop depth.  The stream must be passed as itself, once; the other
+// parameters are bound to the caller's arguments (byte order, values of interface type, pointers).
+func (s *layoutScan) expandHelper(c *ast.CallExpr, depth int, cond string) bool {
+	if !mentionsIdent(c, s.stream) {
+		return false
+	}
+	d := s.p.privateCallee(s.env, c)
+	if d == nil || nestedNames[d.Name.Name] != "" {
+		return false
+	}
+	names, ok := paramNames(d)
+	if !ok || len(names) != len(c.Args) {
+		return false
+	}
+	k := -1
+	for i, a := range c.Args {
+		if s.isStream(a) {
+			if k >= 0 {
+				return false
+			}
+			k = i
+		} else if mentionsIdent(a, s.stream) {
+			return false
+		}
+	}
+	if k < 0 || names[k] == "" {
+		return false
+	}
+	if sel, ok := c.Fun.(*ast.SelectorExpr); ok && mentionsIdent(sel.X, s.stream) {
+		return false
+	}
+	refuse := func(why string) bool {
+		s.e.ops = append(s.e.ops, streamOp{kind: "other", ty: types.ExprString(c.Fun), depth: depth, unknown: true, why: why, pos: c.Pos()})
+		return true
+	}
+	if len(s.stack) >= maxExpandDepth+1 {
+		return refuse("helper calls nested deeper than " + strconv.Itoa(maxExpandDepth))
+	}
+	for _, x := range s.stack {
+		if x == d {
+			return refuse("recursive helper")
+		}
+	}
+	env, poisoned := s.p.buildEnv(d)
+	assigned := assignedIdents(d)
+	if assigned[names[k]] {
+		return refuse("the helper assigns to its stream parameter")
+	}
+	for _, pn := range poisoned {
+		if pn == names[k] {
+			return refuse("the helper shadows its stream parameter")
+		}
+	}
+	child := &layoutScan{p: s.p, env: env, e: s.e, stream: names[k], bind: map[string]layoutBinding{},
+		stack: append(append([]*ast.FuncDecl{}, s.stack...), d)}
+	for i, n := range names {
+		if i != k && n != "" && !assigned[n] {
+			child.bind[n] = layoutBinding{c.Args[i], s}
+		}
+	}
+	child.stmts(d.Body.List, depth, cond, true)
+	s.p.expanded[d] = true
+	return true
 }
 
 func lastIsNil(r *ast.ReturnStmt) bool {
@@ -1652,7 +2101,7 @@ func genLayoutTable(repo string) (string, error) {
 			continue
 		}
 		env, poisoned := p.buildEnv(fd)
-		e := &layoutEntry{typ: typeName(fd.Recv.List[0].Type), method: fd.Name.Name, dir: dir, pos: fd.Pos()}
+		e := &layoutEntry{typ: lyTypeName(fd.Recv.List[0].Type), method: fd.Name.Name, dir: dir, pos: fd.Pos()}
 		name, ty := streamParam(fd)
 		e.stream = name
 		switch {
@@ -1667,7 +2116,7 @@ func genLayoutTable(repo string) (string, error) {
 					e.flag("the stream parameter is shadowed")
 				}
 			}
-			sc := &layoutScan{p: p, env: env, e: e, stream: name}
+			sc := &layoutScan{p: p, env: env, e: e, stream: name, stack: []*ast.FuncDecl{fd}}
 			sc.stmts(fd.Body.List, 0, "", true)
 		}
 		for _, op := range e.ops {
@@ -1689,7 +2138,9 @@ func genLayoutTable(repo string) (string, error) {
 	sb.WriteString("   parameter in source order.  kind: binary.Write | binary.Read (ty = static type of the value / of the\n")
 	sb.WriteString("   variable read into, order = byte order expression) | stream.Write | io.ReadFull (ty = type of the\n")
 	sb.WriteString("   byte slice) | nested (callee = method called with the stream, ty = static type of its receiver) |\n")
-	sb.WriteString("   other (not understood).  depth = number of enclosing for / range loops. -/\n")
+	sb.WriteString("   other (not understood).  depth = number of enclosing for / range loops.\n")
+	sb.WriteString("   A call that passes the stream to an UNEXPORTED function / method of the package other than writeTo /\n")
+	sb.WriteString("   readFrom is replaced by the operations of the callee's body (recursively, depth <= 4). -/\n")
 	sb.WriteString("namespace Gostatix.Generated\n\n")
 	sb.WriteString("structure StreamOp where\n  kind : String\n  ty : String\n  callee : String\n  order : String\n  depth : Nat\n  unknown : Bool\n  deriving Repr, DecidableEq\n\n")
 	sb.WriteString("structure LayoutEntry where\n  typ : String\n  method : String\n  dir : String\n  ops : List StreamOp\n  unknown : Bool\n  deriving Repr, DecidableEq\n\n")
@@ -1702,7 +2153,7 @@ func genLayoutTable(repo string) (string, error) {
 		for _, w := range e.why {
 			fmt.Fprintf(&sb, "\n  --   unknown: %s", w)
 		}
-		fmt.Fprintf(&sb, "\n  { typ := %s, method := %s, dir := %s, unknown := %s, ops := [", leanString(e.typ), leanString(e.method), leanString(e.dir), leanBool(e.unknown))
+		fmt.Fprintf(&sb, "\n  { typ := %s, method := %s, dir := %s, unknown := %s, ops := [", lyQuote(e.typ), lyQuote(e.method), lyQuote(e.dir), lyBool(e.unknown))
 		for j, op := range e.ops {
 			if j > 0 {
 				sb.WriteString(",")
@@ -1712,10 +2163,54 @@ func genLayoutTable(repo string) (string, error) {
 				fmt.Fprintf(&sb, "  (unknown: %s)", op.why)
 			}
 			fmt.Fprintf(&sb, "\n      { kind := %s, ty := %s, callee := %s, order := %s, depth := %d, unknown := %s }",
-				leanString(op.kind), leanString(op.ty), leanString(op.callee), leanString(op.order), op.depth, leanBool(op.unknown))
+				lyQuote(op.kind), lyQuote(op.ty), lyQuote(op.callee), lyQuote(op.order), op.depth, lyBool(op.unknown))
 		}
 		sb.WriteString(" ] }")
 	}
 	sb.WriteString("\n]\n\nend Gostatix.Generated\n")
 	return sb.String(), nil
+}
+
+// ---------------------------------------------------------------------------------------------
+// small helpers (local copies, so that this file depends on no other generator)
+
+func lyTypeName(e ast.Expr) string {
+	switch t := e.(type) {
+	case *ast.StarExpr:
+		return lyTypeName(t.X)
+	case *ast.ParenExpr:
+		return lyTypeName(t.X)
+	case *ast.Ident:
+		return t.Name
+	}
+	return ""
+}
+
+func lyBool(b bool) string {
+	if b {
+		return "true"
+	}
+	return "false"
+}
+
+// lyQuote prints a Go string as a Lean string literal
+func lyQuote(s string) string {
+	var b strings.Builder
+	b.WriteByte('"')
+	for _, r := range s {
+		switch r {
+		case '"':
+			b.WriteString("\\\"")
+		case '\\':
+			b.WriteString("\\\\")
+		case '\n':
+			b.WriteString("\\n")
+		case '\t':
+			b.WriteString("\\t")
+		default:
+			b.WriteRune(r)
+		}
+	}
+	b.WriteByte('"')
+	return b.String()
 }
